@@ -22,8 +22,8 @@ def words(length):
 
 
 # history length per configuration
-DEPTH = {'quick':    {4: 6, 5: 5, 0: 5, 2: 5, 1: 4, 3: 4},
-         'thorough': {4: 8, 5: 6, 0: 6, 2: 6, 1: 5, 3: 5}}
+DEPTH = {'quick':    {4: 5, 5: 5, 0: 4, 2: 4, 1: 3, 3: 3},
+         'thorough': {4: 7, 5: 6, 0: 5, 2: 5, 1: 5, 3: 4}}
 
 
 def cases(tier):
@@ -36,16 +36,26 @@ def cases(tier):
     return cs
 
 
+BOUNDS = ('rings: Size 12 and 29 (default layout), 40 and 64 (default_pdu_layout and nrf_details::encrypted_pdu_layout), Buffer = read_buffer (the only one bluetoe instantiates); '
+          'histories from reset() of L state changing operations (commit = alloc_front + fill + push_front, pop = next_end + pop_end) in every order that never pops an empty ring, '
+          'quick: L = 5 (Size 12, 29), 4 (Size 40), 3 (Size 64); thorough: L = 7 (Size 12), 6 (Size 29), 5 (Size 40, Size 64 default layout), 4 (Size 64 encrypted layout); '
+          'a history ends at the first failing allocation (ring unchanged); all requested sizes memory_size(0)..Size+2, committed length fields 1..size-overhead, headers, '
+          'initial storage content and two payload bytes per PDU symbolic; an additional uncommitted alloc_front() of another size before every commit')
+
 PROPERTY = Property(
     'C18',
-    [Harness('c18_ring', RING_PDU, 'harness/c18_ring.c', cases, unwind=12, unwindset=['in_bytes.0:70'], timeout=900, diff_iters=400, diff_cases=6,
-             description='real pdu_ring_buffer driven by K symbolic producer/consumer steps from reset on an exact-size storage object, compared with a FIFO list',
-             bounds='TODO')],
+    [Harness('c18_ring', RING_PDU, 'harness/c18_ring.c', cases, unwind=12, unwindset=['in_bytes.0:70'], timeout=900, diff_iters=300, diff_cases=6,
+             description='real pdu_ring_buffer driven from reset by every order of L commits/pops (case split over the order, everything else symbolic) on an exact-size storage object, compared with a FIFO list of (offset, length, header, one byte at a universally quantified position)',
+             bounds=BOUNDS)],
     functions=['pdu_ring_buffer::reset', 'pdu_ring_buffer::alloc_front', 'pdu_ring_buffer::push_front', 'pdu_ring_buffer::next_end', 'pdu_ring_buffer::pop_end',
                'pdu_ring_buffer::more_than_one', 'pdu_ring_buffer::pdu_length', 'default_pdu_layout::header/body/data_channel_pdu_memory_size',
                'nrf_details::encrypted_pdu_layout::header/body/data_channel_pdu_memory_size'],
-    bounds='TODO',
-    assumptions=[],
-    explanation='TODO',
-    outside=[],
+    bounds=BOUNDS,
+    assumptions=['documented preconditions: the same storage pointer of Size bytes on every call; alloc_front(size) with size >= Layout::data_channel_pdu_memory_size(0); push_front() of the buffer alloc_front() returned, length field != 0 and memory size of the length field <= allocated size; pop_end() only when a PDU is stored',
+                 'producer and consumer calls do not interleave inside each other (sequential histories)',
+                 'oracle for "may fail": empty ring: requests <= Size-1 must succeed (class documentation); otherwise a request strictly smaller than a free contiguous region in ring order must succeed; exact fits are left to the implementation (permissive reading of the one-byte-gap rule)'],
+    explanation='the storage is an exact-size heap object with symbolic content, so CBMC\'s pointer checks inside the real code decide "nothing is accessed outside the storage"; the order of commits and pops is enumerated (all orders of length L, shorter ones are prefixes), sizes, length fields, headers and bytes are solver variables; after every operation next_end()/more_than_one() and the bytes of every stored PDU are compared with a FIFO list, every allocated buffer is checked to lie inside the storage and to be disjoint from all stored PDUs, and a failing allocation is checked against the documented rules',
+    outside=['rings larger than 64 bytes, in particular PDUs with a memory size above 255 (pdu_length(const P&) returns std::uint8_t: a length field of 254/255 would be truncated; not reachable with Size <= 64 and not through ll_data_pdu_buffer, whose maximum PDU size is 251)',
+             'histories longer than the stated L; concurrent producer/consumer (ISR) access',
+             'Buffer = write_buffer (push_front does not compile for it; bluetoe only uses read_buffer)'],
 )
